@@ -9,8 +9,8 @@ from props import c04
 from vlib import Result, poly_from_points, poly_eval
 
 ID = "C06"
-LEAN_MODULES = ["NdInterp.Props.C06", "NdInterp.Props.C02", "NdInterp.Props.RatTie", "NdInterp.Props.FormulaTie.Lin", "NdInterp.Props.FormulaTie.Bil", "NdInterp.Props.FormulaTie.SplEval", "NdInterp.Props.FormulaTie.TabExt"]
-THEOREM_FILES = [("NdInterp/Props/C06.lean", "C06_"), ("NdInterp/Props/C02.lean", "C06_"), ("NdInterp/Props/FormulaTie/Lin.lean", "FT_lin_"), ("NdInterp/Props/FormulaTie/Bil.lean", "FT_bil_"), ("NdInterp/Props/FormulaTie/SplEval.lean", "FT_spl_coeffs"), ("NdInterp/Props/FormulaTie/SplEval.lean", "FT_spl_eval"), ("NdInterp/Props/FormulaTie/TabExt.lean", "FT_tab_")]
+LEAN_MODULES = ["NdInterp.Props.C06", "NdInterp.Props.C02", "NdInterp.Props.RatTie", "NdInterp.Props.FormulaTie.Lin", "NdInterp.Props.FormulaTie.Bil", "NdInterp.Props.FormulaTie.SplEval", "NdInterp.Props.FormulaTie.TabExt", "NdInterp.Props.FormulaTie.Ctl"]
+THEOREM_FILES = [("NdInterp/Props/C06.lean", "C06_"), ("NdInterp/Props/C02.lean", "C06_"), ("NdInterp/Props/FormulaTie/Lin.lean", "FT_lin_"), ("NdInterp/Props/FormulaTie/Bil.lean", "FT_bil_"), ("NdInterp/Props/FormulaTie/SplEval.lean", "FT_spl_coeffs"), ("NdInterp/Props/FormulaTie/SplEval.lean", "FT_spl_eval"), ("NdInterp/Props/FormulaTie/TabExt.lean", "FT_tab_"), ("NdInterp/Props/FormulaTie/Ctl.lean", "FT_ctl_")]
 RULE = ("extrapolate=true for Linear, Bilinear and non-periodic CubicSpline at Q (exact): queries inside and up to 50 spans "
         "outside on either side (2-D: outside in x, in y, in both). Linear/Bilinear judged against the exact end line / border-cell "
         "form; spline: the end cubic is recovered from 4 exact in-range samples of the end interval and evaluated at the outside "
